@@ -89,6 +89,19 @@ def run(tier, seed, replay):
     for k, sp in enumerate(specs):
         if sp.get("what") == ["feature"] and obs[k].get("exit") != 0:
             out.broke("harness: a feature configuration of the C01 matrix is not accepted", {"files": sp["files"], "errors": obs[k].get("errors")})
+    # rebuild over an existing, longer generated file: the result is the same complete, compilable file
+    resp, reidx = [], []
+    for k, o in accepted[:: max(1, len(accepted) // (25 if tier == "quick" else 200))]:
+        sp = dict(specs[k], id="re%d" % k)
+        sp["files"] = list(sp["files"]) + [{"path": sp["output"], "content": o["out_content"] + "\n// a previous, longer generation\nfunc leftover() {}\n" * 40}]
+        resp.append(sp)
+        reidx.append(k)
+    reobs = build.gx_run(tooldir, resp)
+    dist["rebuilt_over_longer_file"] = len(resp)
+    for sp, ro, k in zip(resp, reobs, reidx):
+        if ro.get("exit") != 0 or ro.get("out_content") != obs[k].get("out_content"):
+            out.violation("rebuild-over-existing-file", "building over an existing longer file does not give the file a fresh build gives (exit %s)" % ro.get("exit"),
+                          dict(common.slim(sp, ro), fresh_len=len(obs[k].get("out_content") or ""), rebuilt_len=len(ro.get("out_content") or ""), tail=(ro.get("out_content") or "")[-200:]))
     nontrivial = set()
     for stub in (False, True):
         items = [("c%04d" % k, o["out_content"]) for k, o in accepted if bool(specs[k]["flags"].get("stub")) == stub]
